@@ -15,11 +15,19 @@ LEVEL_TEXT = ("Proof: filtering by any list of statements equals one pass keepin
               "holds (order, multiplicity, fields unchanged), is invariant under statement permutation and grouping, idempotent; "
               "datetime statements equal origin-time statements at the epoch millisecond; in_place=False leaves every existing "
               "object's events untouched; spatial filter keeps exactly the events in a half-open cell. Unbounded in events, "
-              "statements and call histories (induction, kernel-checked). Tied to the code by call histories on generated catalogs.")
+              "statements and call histories (induction, kernel-checked). Tied to the code by call histories on generated catalogs. "
+              "apply_mct (time-dependent completeness cut) is inside the model: on a time-sorted catalog it keeps exactly the rows that "
+              "are not (in [event_epoch, t_crit_epoch] and below the completeness magnitude), is idempotent and commutes with statement "
+              "and spatial filters; on any catalog it is that cut on the rows in front of the first row later than t_crit; the filter "
+              "stage of CatalogForecast.__next__ (filter, apply_mct, filter_spatial) is one pass with the conjunction of the three "
+              "predicates.")
 LEVEL_NOTE = ("Statement text parsing (str.split, float(text), datetime.strptime) is not modelled; the harness writes thresholds with "
               "repr(float) so the parsed threshold is the intended double, and passes the parsed civil date fields to the model, "
               "which computes the epoch millisecond itself. The region lookup inside filter_spatial is the exact half-open cell "
-              "test; events in the documented round-off band just below a cell edge are excluded from the comparison (C01/C02).")
+              "test; events in the documented round-off band just below a cell edge are excluded from the comparison (C01/C02). "
+              "The two transcendental floats of apply_mct (10**x for t_crit, log10 for the completeness magnitude) are inputs of the "
+              "model, computed by the harness with the code's formulas; magnitudes within 1e-9 of the completeness magnitude are not "
+              "compared.")
 DESIGN_REF = "DESIGN.md §4 C04"
 TECHNIQUE = "Lean 4 proof over an exact executable model + differential correspondence on call histories + exact oracle"
 
@@ -32,14 +40,23 @@ THEOREMS = ["CatFilter.holds_iff", "CatFilter.holds_at_threshold", "CatFilter.ho
             "CatFilter.step_filter_events", "CatFilter.step_spatial_events", "CatFilter.step_filter_none_iff",
             "CatFilter.call_not_in_place_preserves", "CatFilter.call_in_place_others", "CatFilter.chain_in_place",
             "CatFilter.filterSpatial_eq", "CatFilter.filterSpatial_mem_iff", "CatFilter.filterSpatial_sublist",
-            "CatFilter.loadApply_region", "CatFilter.loadApply_no_region", "CatFilter.loadApply_no_filters"]
+            "CatFilter.loadApply_region", "CatFilter.loadApply_no_region", "CatFilter.loadApply_no_filters",
+            # apply_mct, filter stage of CatalogForecast.__next__, spatial filter extras (Properties/C04_Mct.lean)
+            "CatFilter.applyMct_eq_loop", "CatFilter.applyMct_error_iff", "CatFilter.mct_eq_prefix",
+            "CatFilter.mct_sorted_eq_filter", "CatFilter.mct_mem_iff", "CatFilter.mct_count", "CatFilter.mct_sublist",
+            "CatFilter.mct_idem", "CatFilter.applyMct_twice", "CatFilter.mct_comm_rowfilter", "CatFilter.mct_comm_filter",
+            "CatFilter.mct_comm_spatial", "CatFilter.filters_preserve_sorted", "CatFilter.filterSpatial_comm_filter",
+            "CatFilter.filterSpatial_count", "CatFilter.stepMct_in_place", "CatFilter.next_all_stages", "CatFilter.next_off",
+            "CatFilter.next_mct_raises_on_empty"]
 TRUSTED = ["Lean 4.33 kernel", "axioms: propext, Classical.choice, Quot.sound at most",
            "numpy boolean-mask indexing keeps the rows with a true mask, in order (modelled as List.filter)",
            "numpy compares the int64 origin_time column with a float threshold exactly for |t| < 2^53",
            "Python str.split / float(text) / datetime.strptime parse the statement text to the intended operator, double and "
            "civil date (thresholds are written with repr(float); checked: float(repr(x)) == x on every generated threshold)",
            "region cell lookup (bin1d_vec, cleaner_range) is the subject of C01/C02; here only its half-open result is used",
-           "harness/c04.py generators, canonicalisation and comparison; driver parsing (Drive/C04.lean, Proto.lean)"]
+           "apply_mct: t_crit_epoch and the per-event decision `mw < m_main - 4.5 - 0.75*log10(days)` are computed by the harness "
+           "(same formulas, float64) and handed to the model; numpy.log10(0) = -inf (an event at the mainshock instant is removed)",
+           "harness/c04.py, harness/c04_mct.py generators, canonicalisation and comparison; driver parsing (Drive/C04.lean, Proto.lean)"]
 RULE = ("histories of 1..6 calls (filter with string / list / tuple / None statements, filter_spatial; both in_place values; any "
         "object of the history as target) on catalogs of 0..50 events whose attribute values come from small pools (ties); "
         "thresholds drawn from the catalog's own values (equality), their 1-ulp / 1-ms neighbours, own values moved by a "
@@ -49,7 +66,14 @@ RULE = ("histories of 1..6 calls (filter with string / list / tuple / None state
         "after every call every object of the history is snapshotted (ids in order + all fields). A history is non-trivial "
         "when some call kept a proper non-empty subset or hit a threshold equal to an event's value; distinct by "
         "(events, calls). Metamorphic: shuffled / split / repeated statement lists and datetime-vs-origin_time on the "
-        "implementation's own outputs. load_catalog(apply_filters=True) with custom loader and with a written csep-csv file.")
+        "implementation's own outputs. load_catalog(apply_filters=True) with custom loader and with a written csep-csv file. "
+        "apply_mct: 1..40 rows, 80 % time-sorted, rows before / exactly at / 1 ms after the mainshock instant, exactly at t_crit_epoch "
+        "(when t_crit is exactly 1 / 10 / 100 days) and 1 ms later, magnitudes at the completeness magnitude +-1e-6 .. +-2, event_epoch "
+        "as int / numpy.int64 / float, second call, commutation with statement filters; CatalogForecast.__next__ with every "
+        "combination of carried filters / apply_mct / filter_spatial / apply_filters over two passes; filter and filter_spatial "
+        "(update_stats, both in_place) incl. calls that keep every row, where the returned catalog must still share no row storage "
+        "with the original. Classes in c04_mct.AWAITING_DECISION (apply_mct on an empty catalog, filter_spatial with a quadtree "
+        "region) are not generated.")
 
 ATTRS = [("origin_time", "t"), ("latitude", "lat"), ("longitude", "lon"), ("depth", "dep"), ("magnitude", "mag")]
 OPS = [(">", "gt"), ("<", "lt"), (">=", "ge"), ("<=", "le"), ("==", "eq")]
@@ -694,10 +718,17 @@ def run(run, rng, tier):
     for (txt, impl), o in zip(exp, drv3.run()):
         if str(impl) != o:
             run.mismatch(dict(kind="epoch", text=txt), impl, o)
+    # apply_mct, CatalogForecast.__next__ filter stage, update_stats / no-shared-rows extras
+    from . import c04_mct
+    c04_mct.run_all(run, rng, tier, Driver)
 
 
 def replay_case(run, drv, pending, case):
     kind = case.get("kind", "history")
+    if kind in ("mct", "next", "extra"):
+        from . import c04_mct
+        c04_mct.replay(run, case, Driver)
+        return
     if kind == "history" or "calls" in case:
         run_history(run, drv, pending, case)
     elif kind == "metamorphic":
@@ -783,6 +814,10 @@ def _replay_load(run, case):
 
 
 def replay(run, payload):
+    if payload["case"].get("kind") in ("mct", "next", "extra"):
+        from . import c04_mct
+        c04_mct.replay(run, payload["case"], Driver)
+        return
     drv, pending = Driver(), []
     replay_case(run, drv, pending, payload["case"])
     flush(run, drv, pending)
